@@ -47,6 +47,7 @@ Proof: (ii) `run_located` (Lemmas/CompileRun*.lean, induction on the evaluator's
 -/
 import Garnish.Lemmas.CompileRun4
 import Garnish.Lemmas.CompileLayout4
+import Garnish.Props.C06Static
 namespace Garnish.Props.C01
 open Garnish Gen Garnish.Abs Garnish.Spec
 
@@ -276,5 +277,8 @@ example : WFProgram (exProg (F := F)) where
   distinct := by
     have : (compileState Prog.empty (exProg (F := F))).done.map (·.patch) = [1, 0] := rfl
     rw [this]; decide
+
+/-- the verified depth analysis accepts the compiled example (C06 static half, non-vacuity) -/
+example : (C06.absDepth (compile (exProg (F := Float))) 0).isSome = true := by decide
 
 end Garnish.Props.C01
